@@ -11,9 +11,11 @@
     of the wire with TraceFlowSend: every STREAM / RESET_STREAM frame an endpoint emits
     against the limits carried by MAX_* frames in packets that were delivered to and
     authenticated by that endpoint, and, at the quiescent end, that nothing sendable was
-    left unsent.
+    left unsent.  Connections through a Retry and resumed sessions whose early (0-RTT) data is sent under the
+    limits remembered from the ticket (accepted or rejected by the server) are part of the scripts.
 """
 import json
+import os
 import random
 
 from .. import trace
@@ -24,13 +26,54 @@ _A = None
 
 
 def job_fn(job):
-    s = script.run(_A, job["cfg"], job["script"], seed=job["seed"], hs_adv=job["hs_adv"])
+    s = script.run(_A, job["cfg"], job["script"], seed=job["seed"], hs_adv=job["hs_adv"], early=job.get("early"))
     lines = project.flowsend(s.log)
+    zr = [e for e in s.log if e["k"] == "pkt" and e["type"] == "0rtt" and e.get("ok")]
     blocked = any(e["k"] == "pkt" and e.get("ok") and any(f["t"] in ("data_blocked", "stream_data_blocked", "streams_blocked")
                                                           for f in e.get("frames", [])) for e in s.log)
     raised_limits = sum(1 for l in lines if l["ev"] == "lim")
     return {"lines": lines, "nontrivial": bool(blocked or raised_limits), "raised": s.raised[:3],
-            "frames": sum(len(l["ends"]) for l in lines if l["ev"] == "sent"), "limits": raised_limits}
+            "frames": sum(len(l["ends"]) for l in lines if l["ev"] == "sent"), "limits": raised_limits,
+            "zrtt": len(zr), "zrtt_frames": sum(1 for e in zr for f in e["frames"] if f["t"] in ("stream", "reset_stream")),
+            "retries": s.retry["sent"]}
+
+
+def zrtt_jobs(rnd, per):
+    """Retry and resumed sessions.  In a resumed session the client writes before the handshake completes: the limits
+    in force for that (0-RTT) data are the ones remembered from the ticket - the priming connection's server is
+    configured with limits that are smaller than or equal to this run's (cfg "prime"; a server must not reduce them,
+    RFC 9000 7.4.1) - and the new ones from the moment the client has processed the server's transport parameters."""
+    jobs = []
+    for mode in script.ZRTT_MODES:
+        for i in range(per):
+            msd = rnd.choice([50, 64, 1000, 1500, 5000])
+            md = rnd.choice([100, 1500, 3000, 10000])
+            ms = rnd.choice([None, 2, 3, 4])
+            cfg = {"cc": rnd.choice(["reno", "cubic"]), "version": rnd.choice(["v1", "v2", "v1->v2"]),
+                   "max_stream_data": msd, "max_data": md, "max_streams": ms}
+            cfg.update(mode)
+            if mode.get("resume"):
+                # what the client remembers: not larger than what this run's server grants
+                cfg["prime"] = {"s_max_stream_data": rnd.choice([0, 1, msd // 2, msd]), "s_max_data": rnd.choice([0, 1, md // 2, md]),
+                                "max_streams": rnd.choice([1, 2, ms or 128]) if (ms or 128) >= 2 else 1}
+            sizes = [1, 2, max(1, msd - 1), msd, msd + 1, 30, 200, 1300, 3000]
+            jobs.append({"cfg": cfg, "script": script.random_script(rnd, rnd.choice([20, 50]), script.PROFILES["flow"],
+                                                                     streams=script.MANY_STREAMS, sizes=sizes),
+                         "seed": rnd.randrange(1 << 30), "hs_adv": rnd.random() < 0.4,
+                         "early": script.random_early(rnd, streams=script.MANY_STREAMS, sizes=sizes, n=rnd.choice([2, 4, 6])),
+                         "profile": "zrtt-flow"})
+    # corpus: early writes straddling the remembered limits (stream 10, connection 15, two streams of each kind), the new
+    # limits are larger; the rest must follow once the handshake has brought them
+    early = [["write", "c", 0, 11, False], ["write", "c", 4, 11, False], ["write", "c", 8, 5, True], ["write", "c", 2, 20, True]]
+    for mode in script.ZRTT_MODES:
+        cfg = dict({"max_stream_data": 40, "max_data": 100, "max_streams": 3}, **mode)
+        if mode.get("resume"):
+            cfg["prime"] = {"s_max_stream_data": 10, "s_max_data": 15, "max_streams": 2}
+        jobs.append({"cfg": cfg, "script": [["write", "c", 0, 30, True]], "seed": 41, "hs_adv": False, "early": early,
+                     "profile": "corpus-zrtt-remembered-limits"})
+        jobs.append({"cfg": cfg, "script": [["deliver", 0], ["drop", 0], ["deliver", 0], ["deliver", 0], ["timer", "c"], ["write", "c", 0, 30, True]],
+                     "seed": 42, "hs_adv": True, "early": early, "profile": "corpus-zrtt-remembered-limits-loss"})
+    return jobs
 
 
 def judge(check, jobs, results, name):
@@ -50,6 +93,9 @@ def judge(check, jobs, results, name):
         seen.add((ji, clause))
         ln = lines[i]
         sig = "flowsend:%s:ep=%s" % (clause, ln.get("ep", "-"))
+        mode = jobs[ji]["cfg"]
+        if mode.get("retry") or mode.get("resume"):
+            sig += ":" + "+".join((["retry"] if mode.get("retry") else []) + (["resume-" + mode["resume"]] if mode.get("resume") else []))
         detail = {"clause": clause, "line": ln, "job": jobs[ji]}
         (check.drift if clause.startswith("model:") else check.violation)(sig, detail)
 
@@ -100,7 +146,12 @@ def run(check):
                  "script": [["write", "c", 0, 11, False], ["write", "c", 4, 11, False], ["write", "c", 8, 5, True], ["write", "c", 2, 20, True],
                             ["deliver", 0], ["deliver", 0], ["drop", 0], ["timer", "c"], ["deliver", 0], ["deliver", 0]],
                  "seed": 1, "hs_adv": False, "profile": "corpus-boundary"})
+    jobs += zrtt_jobs(rnd, 2 if check.quick else 40)
     results = runner.run_many(job_fn, jobs)
+    check.cov["zero_rtt_packets_on_the_wire"] = sum(r["zrtt"] for r in results)
+    check.cov["stream_and_reset_frames_in_zero_rtt_packets"] = sum(r["zrtt_frames"] for r in results)
+    check.cov["retry_packets_sent"] = sum(r["retries"] for r in results)
+    check.cov["retry_or_resumed_runs"] = sum(1 for j in jobs if j["cfg"].get("retry") or j["cfg"].get("resume"))
     judge(check, jobs, results, "TraceFlowSend_V")
     for job, res in zip(jobs, results):
         check.count(repr(job), nontrivial=res["nontrivial"], evaluations=res["frames"])
@@ -115,4 +166,7 @@ def run(check):
                                  "internal write on the peer object: _local_max_streams_*.value (aioquic has no configuration option)"]
     check.assumptions += ["an endpoint's limits are the peer's configured initial values (it cannot send STREAM data before it has "
                           "processed the peer's transport parameters) raised by every MAX_* frame in a packet delivered to and "
-                          "authenticated by it; peers never lower a limit; 0-RTT with remembered limits is not exercised"]
+                          "authenticated by it; peers never lower a limit",
+                          "resumed sessions: until the client has processed the server's transport parameters (ProtocolNegotiated) "
+                          "its limits are the ones remembered from the ticket = the configuration of the priming connection's server, "
+                          "which is never larger than this run's (RFC 9000 7.4.1); from then on the larger of the two"]
